@@ -195,8 +195,7 @@ def validate(run, pid, label, logs, also=(), shard_of=None, overhead=OVERHEAD_MS
                 run.violation("%s:%s" % (code, re.sub(r"\s+", "_", detail)[:300]), "%s: %s" % (code, detail), rep)
             else:
                 other[prop] = other.get(prop, 0) + 1
-                if os.environ.get("VERIF_DEBUG"):
-                    log("other: %s %s %s" % (prop, code, detail[:300]))
+                run.foreign(prop, code, detail)
     run.add("traces_validated_against_impl", len(logs))
     # upper timing bounds are confirmed in isolation (at least 2 of 3 re-runs) before they are reported
     for si, code, detail in late:
